@@ -26,7 +26,8 @@ CAT = {
     # one Deferred for all calls that arrive before it fires (a coalescing cache)
     'Shared': (I1, 'Shared', '', 's', 'shared', 'Shared', 1),
     'RaiseNamed': (I1, 'RaiseNamed', '', '', 'raise', 'Err.Named', 1),
-    'RaiseUnnamed': (I1, 'RaiseUnnamed', 's', 's', 'raise', 'Err.Unnamed', 1),
+    # (declared arguments: a string and a dictionary - braces in the signature the InvalidArgs text quotes)
+    'RaiseUnnamed': (I1, 'RaiseUnnamed', 'sa{sv}', 's', 'raise', 'Err.Unnamed', 1),
     'RaiseBadName': (I1, 'RaiseBadName', '', '', 'raise', 'Err.BadName', 1),
     'RaiseNul': (I1, 'RaiseNul', '', '', 'raise', 'Err.Nul', 1),
     # both at once: a name that is no DBus error name and a text that cannot go on the wire as it is
@@ -142,7 +143,7 @@ def build():
             self.log('RaiseNamed', (), None)
             raise NamedError('boom')
 
-        def dbus_RaiseUnnamed(self, s):
+        def dbus_RaiseUnnamed(self, s, options):
             self.log('RaiseUnnamed', (s,), None)
             raise ValueError('bad')
 
@@ -301,7 +302,7 @@ class ObjectsDriver:
             sin = CAT[key][2] if key else 's'
             arg = 'a%d' % cid
             if c['sigok']:
-                sig, body = (sin or None), ([arg] if sin else None)
+                sig, body = (sin or None), (([arg, {}] if sin == 'sa{sv}' else [arg]) if sin else None)
             else:
                 sig, body = ('i', [5]) if sin != 'i' else ('s', ['x'])
             sender = ':1.5%d' % cid
@@ -329,10 +330,17 @@ class ObjectsDriver:
             cid, ok = args
             d = self.deferreds.pop(cid)
             arg = self.calls[cid - 1][3]
+            gone = cid % 2 == 0 and '/obj' in self.h.exports
+            if gone:
+                # the object is withdrawn while the call is still being worked on (a Close() that finishes later): the
+                # caller is still owed its reply
+                self.h.unexportObject('/obj')
             if ok:
                 d.callback('d:' + arg)
             else:
                 d.errback(DeferredError('later'))
+            if gone:
+                self.h.exportObject(self.o)
         else:
             raise ValueError(name)
 
